@@ -43,6 +43,44 @@ T = {
             "Integer and explicit grids, both distributions, histories with 1-5 epochs given as number, object or dict."),
     "C17": ("reference-model monitor (30-digit arithmetic) + icontract class invariant on PopulationSizeHistory",
             "Histories with 1-12 epochs and sizes over 15 decades; residuals judged against the magnitude of the summed terms (cancellation-aware)."),
+    "C18": ("online harvest of real EP cavity arguments in the interpreter engine (recording wrappers inside the kernels) + independent numerical integration of the tilted densities",
+            "All 14 moment functions; harvested events incl. hypergeometric arguments next to their boundary (seen in first EP iterations on inputs with very uneven tree spans) and their parent-swapped mirrors; means judged at 5 % on harvested events, support/finiteness on random ones; closed forms to 1e-12."),
+    "C19": ("reference-model monitor: mpmath / scipy quantiles vs the compiled special-function and gamma-fitting helpers",
+            "Log-uniform arguments over 16 decades plus every series cut-off +-ulp; KL fits with shapes 1e-9..1e9; quantile fits incl. capped shapes."),
+    "C20": ("reference-model monitor: closed-form conjugate posterior for star forests",
+            "Balanced, skewed (one edge carrying >90 % of the information) and proportional stars, 1-8 intervals, caps 2..1000; the capped+non-proportional class is a recorded finding and still judged for shape."),
+    "C21": ("invariant at a hook: wrapper on ExpectationPropagation.iterate re-adds all messages after every iteration; the compiled _rescale_factors is exercised on the live state",
+            "Unphased blocks, historical/internal samples, regularisation on/off, caps 1.5..1e6; residuals judged against the sum of |messages|."),
+    "C22": ("postcondition on mutation nodes + two-run relation (random re-phasing of singletons)",
+            "Diploid simulations and inferences; both match_segregating_sites settings; individuals that must be rejected or left alone; near-tie rule as C06."),
+    "C23": ("invariant at an internal hook: the counts passed to the rescaling step's first mutational_timescale() call vs counts rebuilt from the trees, the fitted phases and the final placement",
+            "Singletons exactly on tree breakpoints, switched singletons, both count modes."),
+    "C24": ("reference-model monitor: naive per-tree tallies vs count_mutations (plain, weighted, custom sets), mutation_span_array, block_singletons",
+            "Mutations above changing roots, in gaps on isolated samples, arbitrary custom node sets, diploid individuals."),
+    "C25": ("invariants at internal hooks: every call rescale() makes to mutational_timescale / piecewise_scale_* is recorded and judged; per-interval counts/areas vs a direct O(E*K) overlap computation",
+            "max_iterations=1 leaves reversed branches (child mean older than parent) so that the edge filter of mutational_area is exercised."),
+    "C26": ("reference-model monitor: exact rational boundaries; unpruned O(n^2) DP and literal enumeration of all segmentations",
+            "Thorough enumerates all count vectors of length <=5 over {0,1,2,5} (exhaustive for that sub-space)."),
+    "C27": ("reference-model monitor on util.constrain_ages (bit-exact minimal solution, feasibility, idempotence) + the same statement at the date() boundary",
+            "DAGs from real tree sequences, six kinds of unconstrained vectors, eps 1e-12..1e3, 0/1/7/100 iterations; date-level part with explicit constr_iterations=0 on historical inputs."),
+    "C28": ("postcondition / reference monitor on every preprocess_ts() return",
+            "Sites thinned into clusters (flanks and deserts), user intervals, mutations above roots, split on/off, filter flags; clades of every output tree looked up in the input tree."),
+    "C29": ("reference-model monitor: node map inferred from every sample's root path at every tree midpoint",
+            "Up to 5 disjoint pieces per node, mutations above split roots, on isolated samples and beyond the last edge, four node-metadata codecs; idempotence."),
+    "C30": ("reference-model monitor: per-tree scan vs the two detectors and the methods' accept/reject decisions",
+            "Kept-unary simplifications, leaf edges cut on the left / middle / right flank of the last tree, unary samples only."),
+    "C31": ("reference-model monitor: definition evaluated from mutation.edge and the edge table",
+            "Outputs of all three methods and synthetic mn metadata that violates the topology; nested and recurrent mutations, root mutations; hand-built tsinfer SampleData with historical carriers."),
+    "C32": ("postcondition monitor with a decision table; logging handler records the warnings",
+            "10 metadata kinds incl. schemas whose validity depends on row values, x set_metadata x method, for both tables."),
+    "C33": ("event-log monitor over chained histories of calls (the provenance table is the log)",
+            "preprocess_ts (all option combinations), split_disjoint_nodes, date and named methods, record_provenance True/False/None, parameter values of several types."),
+    "C34": ("event-log monitor: kwargs recorded at the tsdate.date / preprocess_ts boundary for argv vectors from a grammar; output files compared with the API result",
+            "Every option incl. zero values, booleans switched off, invalid combinations; thorough adds real `python -m tsdate` subprocesses."),
+    "C35": ("postcondition monitor on every call outcome on the bounds-checking build; violations keyed by (exception type, innermost tsdate function, message stem)",
+            "11 pathological input structures + the zoo x entry points x parameter sets with one named invalid parameter in a third of the cases."),
+    "C37": ("postcondition monitor on every rescale_tree_sequence() return",
+            "Contemporaneous simulated / inferred / hand-made inputs, 1-100 intervals, 1-10 iterations."),
     "C38": ("two-run relation monitor with four related numberings; finding keyed by the observed mechanism (which node carries the last id)",
             "Oldest root last vs elsewhere; numberings that share the last-id node must agree exactly, so a different dependence on numbering is still reported."),
 }
